@@ -21,7 +21,9 @@ import tempfile
 import time
 
 from .. import REPO_DIR, VERIF_DIR
-from ..c12_procs import COUNTED, HarnessError, gen_conf, gen_recipe, recipe_digest
+from ..c12_procs import COUNTED, HarnessError, gen_conf, gen_recipe, recipe_digest, tree_fingerprint
+
+_WORKER_TREE = tree_fingerprint(os.path.join(REPO_DIR, "ufl"))  # taken when this worker imported ufl
 
 LEVEL = "exploration"
 ENGINE = "procs"
@@ -50,50 +52,57 @@ ASSUMPTIONS = [
     "compute_form_data is called with default options (and with pull-backs, scaling and geometry lowering for half of the recipes)",
     "every history is a separate interpreter start (python -c ...) with its own PYTHONHASHSEED",
 ]
-BUDGET = {"quick": 70, "thorough": 400}
+BUDGET = {"quick": 75, "thorough": 420}
 NCASES = {"quick": 16, "thorough": 32}
-BATCH = {"quick": 20, "thorough": 48}
+BATCH = {"quick": 16, "thorough": 48}
 CASE_TIMEOUT = 1500.0  # one case = one batch of recipes x all histories (dozens of child processes)
 EVAL_COUNTER = "pairs_compared"
+# about 40 % of what a complete run observes
 FLOORS = {
     "quick": {
-        "recipes": 250,
-        "pairs_compared": 4000,
-        "pairs_straddling_power_of_ten": 1500,
-        "pairs_other_hashseed": 1000,
+        "recipes": 100,
+        "pairs_compared": 1800,
+        "pairs_straddling_power_of_ten": 1400,
+        "pairs_other_hashseed": 500,
         "pairs_same_history_other_interpreter_start": 100,
-        "pairs_with_foreign_objects": 1000,
-        "pairs_other_build_order": 500,
-        "sig_compared": 4000,
-        "sig_renum_compared": 4000,
-        "sig_expr_compared": 4000,
-        "sig_fd_compared": 3000,
-        "sig_fd_lowered_compared": 1500,
-        "straddle:Constant": 800,
-        "straddle:Mesh": 100,
-        "straddle:Index": 400,
-        "straddle:Label": 100,
-        "straddle:Coefficient": 800,
+        "pairs_with_foreign_objects": 700,
+        "pairs_other_build_order": 300,
+        "sig_compared": 1800,
+        "sig_renum_compared": 1800,
+        "sig_expr_compared": 1800,
+        "sig_fd_compared": 1500,
+        "sig_fd_lowered_compared": 700,
+        "straddle:Constant": 700,
+        "straddle:Mesh": 200,
+        "straddle:Index": 600,
+        "straddle:Label": 200,
+        "straddle:Coefficient": 900,
     },
     "thorough": {
-        "recipes": 1300,
-        "pairs_compared": 70000,
+        "recipes": 600,
+        "pairs_compared": 38000,
         "pairs_straddling_power_of_ten": 25000,
-        "pairs_other_hashseed": 15000,
-        "pairs_same_history_other_interpreter_start": 1500,
+        "pairs_other_hashseed": 10000,
+        "pairs_same_history_other_interpreter_start": 1200,
         "pairs_with_foreign_objects": 15000,
         "pairs_other_build_order": 8000,
-        "sig_compared": 70000,
-        "sig_renum_compared": 70000,
-        "sig_expr_compared": 70000,
-        "sig_fd_compared": 55000,
-        "sig_fd_lowered_compared": 25000,
-        "straddle:Constant": 12000,
-        "straddle:Mesh": 2000,
-        "straddle:Index": 6000,
-        "straddle:Label": 2000,
-        "straddle:Coefficient": 12000,
+        "sig_compared": 38000,
+        "sig_renum_compared": 38000,
+        "sig_expr_compared": 38000,
+        "sig_fd_compared": 32000,
+        "sig_fd_lowered_compared": 15000,
+        "straddle:Constant": 14000,
+        "straddle:Mesh": 4000,
+        "straddle:Index": 12000,
+        "straddle:Label": 4000,
+        "straddle:Coefficient": 18000,
     },
+}
+_KINDS = ["build-order", "combined", "counters", "hashseed", "interpreter-start"]
+_FEATURES = ["add:const", "mul:const", "add:coef", "mul:gq", "add:gq", "mul:var", "add:xcomp", "mul:contr", "mul:tcontr", "zero-with-free-index", "diff", "derivative"]
+COVER_FLOORS = {
+    "quick": {"history_kinds": _KINDS, "features": _FEATURES, "integral_types": ["cell", "exterior_facet", "interior_facet"]},
+    "thorough": {"history_kinds": _KINDS, "features": _FEATURES, "integral_types": ["cell", "exterior_facet", "interior_facet"]},
 }
 
 OBSERVABLES = [
@@ -189,6 +198,7 @@ def _run_child(recipes, confs, order, hashseed, timeout, pyc):
             r = json.loads(line[len("C12RESULT ") :])
             if os.path.realpath(os.path.dirname(r["ufl"])) != os.path.realpath(os.path.join(REPO_DIR, "ufl")):
                 raise HarnessError("child imported ufl from " + r["ufl"])
+            r["res"]["tree"] = r["tree"]
             return r["res"]
     raise HarnessError("child process gave no result (rc=%s): %s" % (p.returncode, p.stderr.decode(errors="replace")[-1500:]))
 
@@ -304,6 +314,14 @@ def _find_swap(a, b):
     return _find_swap(a[k], b[k]) or ("structure", _decide(a, b) or "?")
 
 
+def _hashdata_classes(ta, tb):
+    """Terminal classes whose signature hash data differ (geometric quantities as one family)."""
+    bad = {_class_label(k).split(".")[0] for k in set(ta) | set(tb) if ta.get(k) != tb.get(k)}
+    if len(bad) > 2:
+        return "several-terminal-classes"
+    return "+".join(sorted(bad))
+
+
 def mechanism(ref, obs):
     ca, cb = ref.get("canon"), obs.get("canon")
     if isinstance(ca, list) and isinstance(cb, list):
@@ -318,10 +336,9 @@ def mechanism(ref, obs):
             return f"{what}/{cls}"
         ta, tb = ref.get("thd"), obs.get("thd")
         if isinstance(ta, dict) and isinstance(tb, dict):
-            bad = sorted(k for k in set(ta) | set(tb) if ta.get(k) != tb.get(k))
-            if bad:
-                return "hashdata/" + _class_label(bad[0])
-        return "same-structure-same-terminal-data"
+            if ta != tb:
+                return "hashdata-of-" + _hashdata_classes(ta, tb)
+        return "same-tree-same-terminal-data"
     return "undiagnosed"
 
 
@@ -381,6 +398,18 @@ def case(ctx, i, rng):
     if ref is None:
         ctx.count("cases_skipped_reference_timeout")
         return
+    # the tree under test must be the same in every process of the case (it may be edited while we run)
+    if ref["tree"] == "changed-while-running":
+        ctx.count("cases_skipped_tree_under_test_changed")
+        return
+    for hi in range(1, len(H)):
+        if results[hi] is not None and results[hi]["tree"] != ref["tree"]:
+            ctx.count("histories_discarded_tree_under_test_changed")
+            results[hi] = None
+    # in-process diagnostics are only meaningful if this worker imported the same tree
+    can_attribute = _WORKER_TREE == ref["tree"]
+    if not can_attribute:
+        ctx.count("cases_without_in_process_diagnostics_tree_changed")
     for k, r in enumerate(recipes):
         a = ref[str(k)]
         if a.get("timeout"):
@@ -479,7 +508,7 @@ def case(ctx, i, rng):
                     continue
                 # ---- diagnostics: name the mechanism (never changes the verdict)
                 causes = []
-                if hk in ("counters", "combined"):
+                if hk in ("counters", "combined") and can_attribute:
                     if fam == "fd":
                         # a different tree was handed to the preprocessing: same causes as for the built form
                         causes = [m for m in fam_causes.get("sig", []) if m.startswith(("operand-order", "structure", "index-pattern"))]
@@ -524,7 +553,10 @@ def what_differs(x, y, name):
     if not (isinstance(ca, list) and isinstance(cb, list)):
         return "undiagnosed"
     if ca == cb:
-        if x.get("thd") != y.get("thd"):
+        ta, tb = x.get("thd"), y.get("thd")
+        if ta != tb:
+            if isinstance(ta, dict) and isinstance(tb, dict):
+                return "hashdata-of-" + _hashdata_classes(ta, tb)
             return "hashdata"
         return "arises-in-preprocessing" if name.startswith("sig_fd") else "same-tree-same-terminal-data"
     ea, eb = _erase_indices(ca), _erase_indices(cb)
